@@ -268,7 +268,126 @@ func chainTerm(chain [][]compSpec) string {
 	return vlib.List(s)
 }
 
+// ---- histories of registrations and lookups on one nesting of live containers
+type lop struct {
+	Reg   *compSpec `json:"reg,omitempty"`
+	Lvl   int       `json:"lvl"`
+	By    string    `json:"by,omitempty"` // "name" | "kind" (lookups)
+	Key   int       `json:"key"`
+	Must  bool      `json:"must,omitempty"` // use MustComponent (name lookups that are known to succeed)
+}
+
+type lopCase struct {
+	Depth int   `json:"depth"`
+	Ops   []lop `json:"ops"`
+}
+
+func runLops(lc lopCase) (resTerms []string, opTerms []string) {
+	// level 0 is the innermost child: build root first
+	apps := make([]*app.App, lc.Depth)
+	for l := lc.Depth - 1; l >= 0; l-- {
+		if l == lc.Depth-1 {
+			apps[l] = new(app.App)
+		} else {
+			apps[l] = apps[l+1].ChildApp()
+		}
+	}
+	where := map[app.Component][2]int{}
+	count := make([]int, lc.Depth)
+	logs := &logT{}
+	for _, o := range lc.Ops {
+		if o.Reg != nil {
+			c := mkComp(*o.Reg, count[o.Lvl], logs)
+			where[c] = [2]int{o.Lvl, count[o.Lvl]}
+			count[o.Lvl]++
+			apps[o.Lvl].Register(c)
+			opTerms = append(opTerms, vlib.App("LReg", vlib.Nat(o.Lvl), compTerm(*o.Reg)))
+			continue
+		}
+		a := apps[o.Lvl]
+		var got app.Component
+		if o.By == "name" {
+			got = a.Component(fmt.Sprintf("c%d", o.Key))
+			if got != nil && o.Must {
+				got = a.MustComponent(fmt.Sprintf("c%d", o.Key))
+			}
+		} else {
+			switch o.Key {
+			case 0:
+				if v, err := app.GetComponent[K0](a); err == nil {
+					got = v.(app.Component)
+				}
+			case 1:
+				if v, err := app.GetComponent[K1](a); err == nil {
+					got = v.(app.Component)
+				}
+			default:
+				if v, err := app.GetComponent[K2](a); err == nil {
+					got = v.(app.Component)
+				}
+			}
+		}
+		resTerms = append(resTerms, resTerm(got, where))
+		opTerms = append(opTerms, vlib.App("LLook", vlib.Nat(o.Lvl), vlib.Bool(o.By == "kind"), vlib.N(uint64(o.Key))))
+	}
+	return
+}
+
+func genLops(r *vlib.Rand) lopCase {
+	depth := 1 + r.Intn(4)
+	lc := lopCase{Depth: depth}
+	used := make([]map[int]bool, depth)
+	for i := range used {
+		used[i] = map[int]bool{}
+	}
+	reg := func(lvl, nm int) bool {
+		if used[lvl][nm] {
+			return false // Register panics on a duplicate name in one container
+		}
+		used[lvl][nm] = true
+		c := compSpec{Name: nm}
+		if r.Chance(1, 4) {
+			c.Runnable = true
+		} else {
+			c.Kind = r.Intn(8)
+		}
+		lc.Ops = append(lc.Ops, lop{Reg: &c, Lvl: lvl})
+		return true
+	}
+	// some components first, mostly in the outer containers
+	for k := 0; k < 1+r.Intn(5); k++ {
+		reg(depth-1-r.Intn(1+r.Intn(depth)), r.Intn(5))
+	}
+	lastLvl, lastKey := -1, -1
+	n := 3 + r.Intn(14)
+	for k := 0; k < n; k++ {
+		lvl := r.Intn(depth)
+		switch c := r.Intn(10); {
+		case c < 2:
+			reg(lvl, r.Intn(5))
+		case c < 4 && lastLvl >= 0:
+			// shadow (or pre-empt) the name that was just looked up, in the container that asked or an inner/outer one
+			l := lastLvl
+			if r.Chance(1, 3) {
+				l = r.Intn(depth)
+			}
+			reg(l, lastKey)
+		case c < 8:
+			key := r.Intn(5)
+			if lastLvl >= 0 && r.Chance(1, 2) {
+				lvl, key = lastLvl, lastKey // ask again
+			}
+			lc.Ops = append(lc.Ops, lop{Lvl: lvl, By: "name", Key: key, Must: r.Bool()})
+			lastLvl, lastKey = lvl, key
+		default:
+			lc.Ops = append(lc.Ops, lop{Lvl: lvl, By: "kind", Key: r.Intn(3)})
+		}
+	}
+	return lc
+}
+
 type caseDesc struct {
+	Lops   *lopCase     `json:"lops,omitempty"`
 	Kind   string       `json:"kind"`
 	Comps  []compSpec   `json:"comps,omitempty"`
 	Lookup *lookupCase  `json:"lookup,omitempty"`
@@ -322,10 +441,25 @@ func main() {
 		}
 	}
 
+	doLops := func(lc lopCase) {
+		res, ops := runLops(lc)
+		term := vlib.App("CLookupSeq", vlib.Nat(lc.Depth), vlib.List(ops), vlib.List(res))
+		d := caseDesc{Kind: "lookup_history", Lops: &lc, Obs: vlib.List(res)}
+		w.Add(term, d, term, len(res) >= 2)
+		w.Stat("lookup_history")
+		if len(samples) < 6 && lc.Depth >= 2 && len(res) >= 3 {
+			samples = append(samples, d)
+		}
+	}
+
 	if o.Replay != "" {
 		for _, raw := range vlib.ReadReplay(o.Replay) {
 			var d caseDesc
 			if json.Unmarshal(raw, &d) != nil {
+				continue
+			}
+			if d.Lops != nil {
+				doLops(*d.Lops)
 				continue
 			}
 			if d.Lookup != nil {
@@ -424,8 +558,17 @@ func main() {
 		}
 		doLookup(lc)
 	}
+	// histories interleaving Register and lookups on the same live containers
+	nHist := 700
+	if o.Tier == "thorough" {
+		nHist = 7000
+	}
+	for k := 0; k < nHist*o.Budget; k++ {
+		doLops(genLops(r))
+	}
 	w.Finish("exhaustive over lists of length <= maxLen x runnable mask x single failure point (init/run), "+
-		"plus random lists up to 12 with multiple failure points, plus random nestings (depth<=4, shadowed names, 3 interfaces); "+
+		"plus random lists up to 12 with multiple failure points, plus random nestings (depth<=4, shadowed names, 3 interfaces), "+
+		"plus histories interleaving Register with Component / MustComponent / GetComponent[T] on the same live nesting; "+
 		"a case is non-trivial if the list has >= 2 components / the chain has >= 2 levels; distinct by full case term",
 		samples, map[string]interface{}{"exhaustive_lists": exhaustive, "max_len": maxLen})
 }
